@@ -105,6 +105,30 @@ func optsFor(cfg Cfg) []bexpr.Option {
 	return opts
 }
 
+// createWith creates an evaluator for cfg the way a caller does who recycles its option slice: the slice has spare capacity and
+// is overwritten with contradicting options as soon as CreateEvaluator has returned. The evaluator must have taken what it
+// needs at creation; memory the caller owns is not its to keep.
+func createWith(src string, cfg Cfg) (*bexpr.Evaluator, error) {
+	opts := append(make([]bexpr.Option, 0, 8), optsFor(cfg)...)
+	ev, err := bexpr.CreateEvaluator(src, opts...)
+	scribble(opts)
+	return ev, err
+}
+
+func scribble(opts []bexpr.Option) {
+	full := opts[:cap(opts)]
+	for i := range full {
+		switch i % 3 {
+		case 0:
+			full[i] = bexpr.WithTagName("scribbled-after-creation")
+		case 1:
+			full[i] = bexpr.WithUnknownValue("scribbled-after-creation")
+		default:
+			full[i] = bexpr.WithHookFn(hookFn(HookConst))
+		}
+	}
+}
+
 type product struct {
 	exprs []any
 	docs  []*Node
@@ -141,7 +165,7 @@ func (p *product) run(c *eng.Ctx, judge func(src string, e any, d *Node, cfg Cfg
 			if !c.Want("c", ci) {
 				continue
 			}
-			ev, err := bexpr.CreateEvaluator(src, optsFor(cfg)...)
+			ev, err := createWith(src, cfg)
 			if err != nil {
 				c.Violate(eng.Violation{Kind: "harness-expression-rejected", Key: "create: " + src, Detail: err.Error(),
 					Coords: map[string]int{"e": ei, "c": ci}})
